@@ -176,8 +176,10 @@ def _execute(zy, sc: dict, W: World) -> dict:
         so, po = seq["value"], par["value"]
         sc_out["sched_tape"] = po["trace"]
         sc_out["walk_tape"] = po["walk_trace"]
-        if so["walk_trace"] != po["walk_trace"][:len(so["walk_trace"])] and so["walk_trace"] != po["walk_trace"]:
-            harness = "walk permutations differ between sequential and parallel run"
+        # both runs draw their walk permutations from the same tape, so they see the same listing order as long
+        # as they walk the same directories in the same sequence; if the code under test walks differently in
+        # one mode, that is its behaviour (and shows up in the results), not a harness fault
+        stats["walk_diverged"] = so["walk_trace"] != po["walk_trace"][:len(so["walk_trace"])]
         summ = schedule_summary(po["events"])
         Hparts["sched"] = po["trace"]
         Hparts["walk"] = po["walk_trace"]
